@@ -203,7 +203,12 @@ async def _cancel_here(sleep: Callable[[float], Awaitable[None]], how: str) -> N
 
 
 def mkconfig(cfg: dict, rec: Rec):
+    import hypercorn.config as _hc
     from hypercorn.config import Config
+    # the `date` response header is wall-clock time (it is not part of any compared observation; on HTTP/2 it is HPACK
+    # encoded and cannot be masked in raw bytes): freeze it so that two runs of one session write identical bytes
+    if hasattr(_hc, "time"):
+        _hc.time = lambda: 1600000000.0  # type: ignore
     config = Config()
     for k, v in cfg.items():
         setattr(config, k, v)
